@@ -48,7 +48,7 @@ ASSUMPTIONS = [
 ]
 WALL_BUDGET = {"quick": 900.0, "thorough": 3300.0}
 
-KINDS = ["always", "raise", "donestate", "doneinvoke", "par_always", "alw_raise", "entry_raise"]
+KINDS = ["always", "raise", "donestate", "doneinvoke", "par_always", "alw_raise", "entry_raise", "raise2"]
 CTL: Dict[str, Any] = {}
 _M: Dict[str, Any] = {}
 INF = 10 ** 6
@@ -95,7 +95,7 @@ def _svc(i: Any, c: Any, e: Any) -> Any:
     return 1
 
 
-TRIGGER = {"always": "ALW", "raise": "RAISE", "donestate": "DONE", "doneinvoke": "SVC", "par_always": "PAR", "alw_raise": "KICK", "entry_raise": "EK"}
+TRIGGER = {"always": "ALW", "raise": "RAISE", "donestate": "DONE", "doneinvoke": "SVC", "par_always": "PAR", "alw_raise": "KICK", "entry_raise": "EK", "raise2": "RAISE2"}
 
 
 def cm_config(k: int) -> Dict[str, Any]:
@@ -107,6 +107,9 @@ def cm_config(k: int) -> Dict[str, Any]:
             "Idle": {"on": {
                 "ALW": "A1", "DONE": "C", "SVC": "W", "PAR": "P",
                 # mixed chains: the feedback link is raised during the eventless phase / by an entry action
+                # a handler that raises its own trigger AND a harmless side event: two queued events per link
+                "RAISE2": {"actions": ["inc", A.choose([{"guard": "lt", "actions": [A.raise_("RAISE2"), A.raise_("SIDE")]}])]},
+                "SIDE": {"actions": []},
                 "KICK": {"target": "H", "actions": ["inc"]},
                 "EK": {"target": "E", "actions": ["inc"]},
                 "RAISE": {"actions": ["inc", A.choose([{"guard": "lt", "actions": [A.raise_("RAISE")]}])]},
@@ -152,8 +155,8 @@ def start_config(k: int, kind: str) -> Dict[str, Any]:
     """Same machine whose initial state is already inside the chain (the
     chain is triggered by start())."""
     cfg = cm_config(k)
-    cfg["initial"] = {"always": "A1", "donestate": "C", "doneinvoke": "W", "par_always": "P", "raise": "Idle", "alw_raise": "Idle", "entry_raise": "Idle"}[kind]
-    if kind == "raise":
+    cfg["initial"] = {"always": "A1", "donestate": "C", "doneinvoke": "W", "par_always": "P", "raise": "Idle", "alw_raise": "Idle", "entry_raise": "Idle", "raise2": "Idle"}[kind]
+    if kind in ("raise", "raise2"):
         cfg["states"]["Idle"]["entry"] = [{"type": "xstate.raise", "params": {"event": TRIGGER[kind]}}]
     if kind in ("alw_raise", "entry_raise"):
         # these chains pass through Idle again: boot from a separate state whose entry raises the trigger once
@@ -257,7 +260,7 @@ def cycle_bounded(eng: int, mi: int, L: int, inf: bool, at_start: bool) -> bool:
         links = 2 * L if kind == "entry_raise" else L     # entry_raise has two raised events per counted step
         if not inf and links <= k:
             # (the RAISE handler itself counts one step before it decides whether to raise again)
-            want = max(L, 1) if kind in ("raise", "alw_raise", "entry_raise") else L
+            want = max(L, 1) if kind in ("raise", "alw_raise", "entry_raise", "raise2") else L
             if per_chain != want:
                 why = f"natural chain of length {L} (<= maxIterations {k}) ran {per_chain} steps"
             if why is None and kind == "par_always" and CTL["steps"][: steps].count("step2") != L:
@@ -335,7 +338,7 @@ def _rz_machine() -> Any:
 
 
 def _counters(it: Any) -> Dict[str, Any]:
-    return {k: getattr(it, k) for k in ("_action_depth", "_raise_depth", "_is_processing") if hasattr(it, k)}
+    return {k: getattr(it, k) for k in ("_action_depth", "_raise_depth", "_next_event_depth", "_is_processing") if hasattr(it, k)}
 
 
 def residue(eng: int, e0: int, e1: int, e2: int, e3: int) -> bool:
@@ -394,7 +397,7 @@ def residue(eng: int, e0: int, e1: int, e2: int, e3: int) -> bool:
     return verdict(why is None, nontrivial=any(e not in ("OK", "OK2") for e in evs))
 
 
-def burst(eng: int, mi: int, n: int, pending: bool, batch: bool, arm: int) -> bool:
+def burst(eng: int, mi: int, n: int, pending: bool, batch: bool, arm: int, paced: bool = False) -> bool:
     """
     pre: 0 <= eng <= 1
     pre: 0 <= n <= 8
@@ -404,7 +407,7 @@ def burst(eng: int, mi: int, n: int, pending: bool, batch: bool, arm: int) -> bo
     from xstate_statemachine import Interpreter, SyncInterpreter
 
     k = 1 + pick(mi, 5)
-    CTL.update({"L": 0, "steps": [], "pings": [], "out": False, "fuel": 1000, "work": []})
+    CTL.update({"L": 0, "steps": [], "pings": [], "out": False, "fuel": 1000, "work": [], "rest": {}})
     m = _machine(k)
     nn = pick(n, 9)
     ak = pick(arm, 3) if eng == 1 else pick(arm, 2)  # (the sync engine's non-blocking spawn uses a polling OS thread)
@@ -436,11 +439,17 @@ def burst(eng: int, mi: int, n: int, pending: bool, batch: bool, arm: int) -> bo
             else:
                 for e in evs:
                     await it.send(e)
+                    if paced:
+                        await _drain(it)     # one at a time: the next event arrives when the interpreter is at rest
             await _drain(it)
+            CTL["rest"] = _counters(it)
             await it.stop()
 
         common.drive(go())
     ok = CTL["pings"] == list(range(nn))
+    if ok and eng == 1 and any(v not in (0, False) for v in CTL.get("rest", {}).values()):
+        _note(f"at rest after the burst the bound counters are {CTL['rest']}")
+        ok = False
     if ok and eng == 1 and ak == 2 and len(CTL["work"]) != nn:
         _note(f"child actor received {len(CTL['work'])} of {nn} forwarded events")
         ok = False
